@@ -36,6 +36,7 @@ theorem pLen_ops (lenBase posState len : Nat) (h2 : 2 ≤ len) (h273 : len ≤ 2
       rw [this]
       have : 2 + 8 + 8 + (2 ^ 8 * 1 + (len - 2 - 8 - 8) - 256) = len := by norm_num; omega
       rw [this]
+      simp
 
 /-! ### get_dist_slot -/
 
